@@ -102,6 +102,16 @@ Section Routing.
   Qed.
 End Routing.
 
+Lemma thread_of_balanced nb nt : 0 < nt -> nt <= nb -> forall pos t, pos < nb -> t < nt ->
+  (thread_of nb nt pos = t <-> fib_lo nb nt t <= pos < fib_lo nb nt t + fib_size nb nt t) /\
+  (fib_size nb nt t = nb / nt \/ fib_size nb nt t = nb / nt + 1) /\ 1 <= fib_size nb nt t /\
+  fib_lo nb nt (t + 1) = fib_lo nb nt t + fib_size nb nt t /\ fib_lo nb nt 0 = 0 /\ fib_lo nb nt nt = nb.
+Proof.
+  intros H1 H2 pos t H3 H4. split; [exact (thread_of_fibre nb nt H1 H2 pos t H3 H4)|].
+  split; [exact (fib_size_balanced nb nt H1 H2 t)|]. split; [exact (fib_size_pos nb nt H1 H2 t)|].
+  split; [exact (fib_lo_succ nb nt H1 H2 t H4)|]. split; [exact (fib_lo_0 nb nt H1 H2)|exact (fib_lo_top nb nt H1 H2)].
+Qed.
+
 (** * 2. list update *)
 Lemma upd_length {A} (l : list A) i x : length (upd l i x) = length l.
 Proof.
@@ -886,7 +896,7 @@ Section Readers.
     cbn zeta. rewrite app_assoc, (run_split (t0 ++ t1) t2), (run_split t0 t1).
     destruct (run_R t0 _ RInv_init F0) as [R0 _]. fold (rsys_run nr t0) in R0.
     destruct (run_R t1 _ R0 F1) as [Ra La]. destruct (run_R t2 _ Ra F2) as [Rb Lb].
-    repeat split; assumption.
+    split; [exact R0|split; [exact Ra|split; [exact Rb|split; [exact La|exact Lb]]]].
   Qed.
 
   Theorem read_your_ack_version t0 t1 t2 th sid : Forall wf_wstep (t0 ++ t1 ++ t2) ->
@@ -956,7 +966,7 @@ Section Readers.
     rewrite (run_split ((t1 ++ t2) ++ t3) t4), (run_split (t1 ++ t2) t3), (run_split t1 t2).
     destruct (run_R t1 _ RInv_init F1) as [R1 _]. fold (rsys_run nr t1) in R1.
     destruct (run_R t2 _ R1 F2) as [R2 L2]. destruct (run_R t3 _ R2 F3) as [R3 L3]. destruct (run_R t4 _ R3 F4) as [R4 L4].
-    repeat split; assumption.
+    split; [exact R1|split; [exact R2|split; [exact R3|split; [exact R4|split; [exact L2|split; [exact L3|exact L4]]]]]].
   Qed.
 
   Theorem monotone_version t1 t2 t3 t4 th1 th2 sid : Forall wf_wstep (t1 ++ t2 ++ t3 ++ t4) ->
